@@ -106,7 +106,7 @@ func vfCheckPRWire(s *vfSim, w *vfWork, mo *vfMonOut, drained bool) {
 		sh := mo.sh[side]
 		msgs := vfWireMessages(sh)
 		fwds := s.vfCollectFwd(side)
-		for _, run := range w.runs {
+		for _, run := range w.allRuns() {
 			if run.wside != side {
 				continue
 			}
